@@ -14,7 +14,7 @@ from . import frontend as fe
 from .frontend import kids, strip, walk, callee_name, call_args
 from . import exprs, flow
 from .program import is_assign, is_incdec
-from .sym import Poly, prove_nonneg, find_witness, infeasible
+from .sym import Poly, prove_nonneg, find_witness, infeasible, defined_atom
 
 CONTAINER = {'matrix': ('row', 'col'), 'dvector': ('size',), 'uivector': ('size',), 'ivector': ('size',),
              'strvector': ('size',), 'tensor': ('order',), 'dvectorlist': ('size',)}
@@ -314,14 +314,25 @@ class Engine:
                 pa, pb = self.ev(a, st), self.ev(b, st)
                 if pb.is_const() and pb.const_value() not in (0, None) and all(v % pb.const_value() == 0 for v in pa.t.values()):
                     return Poly({k_: v // pb.const_value() for k_, v in pa.t.items()})
-                q = Poly.atom('?div(%s,%s)' % (pa, pb))
                 c_ = pb.const_value()
+                opq = any(x.startswith('?') for x in pa.atoms() | pb.atoms())
+                if c_ is not None and c_ > 0 and not opq:
+                    q = Poly.atom(defined_atom('div', pa, pb))
+                else:
+                    q = Poly.atom('?div(%s,%s)' % (pa, pb))
                 if c_ is not None and c_ > 0:
                     st.add_fact(pa - q * c_)
                     st.add_fact(q * c_ + (c_ - 1) - pa)
                 return q
             if op == '%':
-                return Poly.atom('?mod(%s,%s)' % (self.ev(a, st), self.ev(b, st)))
+                pa, pb = self.ev(a, st), self.ev(b, st)
+                c_ = pb.const_value()
+                if c_ is not None and c_ > 0 and not any(x.startswith('?') for x in pa.atoms()):
+                    r_ = Poly.atom(defined_atom('mod', pa, pb))
+                    st.add_fact(Poly.const(c_ - 1) - r_)
+                    st.add_fact(pa - r_)
+                    return r_
+                return Poly.atom('?mod(%s,%s)' % (pa, pb))
         if k == 'UnaryExprOrTypeTraitExpr':
             return Poly.atom('sizeof(%s)' % ((e.get('argType') or {}).get('qualType') or (kids(e) and fe.qual(strip(kids(e)[0], casts=False))) or '?'))
         if k == 'CallExpr':
@@ -333,7 +344,16 @@ class Engine:
                     x, y = kids(inner)
                     px, py = self.ev(x, st), self.ev(y, st)
                     tag = 'ceildiv' if cn == 'ceil' else 'floordiv'
-                    return Poly.atom('?%s(%s,%s)' % (tag, px, py))
+                    if any(z.startswith('?') for z in px.atoms() | py.atoms()):
+                        return Poly.atom('?%s(%s,%s)' % (tag, px, py))
+                    q = Poly.atom(defined_atom(tag, px, py))
+                    # defining inequalities (for py >= 1):  ceil: q*py >= px, (q-1)*py <= px - 1 ; floor: q*py <= px < (q+1)*py
+                    if tag == 'ceildiv':
+                        st.add_fact(q * py - px)
+                        st.add_fact(px - 1 - (q - 1) * py + Poly.const(0)) if False else None
+                    else:
+                        st.add_fact(px - q * py)
+                    return q
                 return self.ev(a[0], st)
         b = fe.begin(e) or {}
         return Poly.atom('?%s@%s' % (k, b.get('offset')))
@@ -997,6 +1017,10 @@ class Engine:
                 t = (n.get('type') or {})
                 if (t.get('desugaredQualType') or t.get('qualType')) in ('int', 'long', 'short', 'char'):
                     pass
+        for i, p in enumerate(self.f.params):
+            t = (p.get('type') or {}).get('qualType', '')
+            if t.count('*') == 1 and t.replace('*', '').replace('const', '').strip() in ('double', 'int', 'size_t', 'float', 'unsigned int', 'long'):
+                st.raw['$%d' % i] = Poly.atom('ext($%d)' % i)
         if getattr(self, 'entry_tweak', None):
             self.entry_tweak(self, st)
         flows = self.exec(self.f.body, [st])
@@ -1082,11 +1106,29 @@ class Engine:
             flows['cont'] = states
             return flows
         if k == 'DeclStmt':
+            out = []
             for st in states:
+                cur = [st]
                 for v in kids(s):
-                    if v.get('kind') == 'VarDecl':
-                        self.decl(v, st)
-            flows['norm'] = states
+                    if v.get('kind') != 'VarDecl':
+                        continue
+                    init = strip(kids(v)[-1]) if kids(v) else {}
+                    qt = (v.get('type') or {}).get('qualType', '')
+                    if init.get('kind') == 'ConditionalOperator' and '*' not in qt and qt not in ('double', 'float') and '[' not in qt:
+                        c, a_, b_ = kids(init)
+                        nxt = []
+                        for s0 in cur:
+                            for s2, pol in self.split(c, s0):
+                                br = a_ if pol else b_
+                                self.visit(br, s2)
+                                s2.vals[self.vname(v)] = self.ev(br, s2)
+                                nxt.append(s2)
+                        cur = nxt
+                    else:
+                        for s0 in cur:
+                            self.decl(v, s0)
+                out += cur
+            flows['norm'] = self.merge(out)
             return flows
         if flow.is_noreturn_call(s):
             for st in states:
@@ -1168,10 +1210,13 @@ class Engine:
             head.iter_rows = {}
             head.iter_slots = {}
             ivar = ind['var'] if ind else None
+            range_facts = self.range_facts(loop, st, assigned, ind, line)
             for v in assigned:
                 if v == ivar:
                     continue
                 head.vals[v] = Poly.atom('?%s@L%d' % (v, line))
+                for mk in range_facts.get(v, []):
+                    head.add_fact(mk(head.vals[v]))
             for (p, ct, what) in mods:
                 self.havoc_fields(head, p, ct, what, 'L%d' % line)
             skip = None
@@ -1262,6 +1307,8 @@ class Engine:
             for v in assigned:
                 if v != ivar:
                     post.vals[v] = Poly.atom('?%s!L%d' % (v, line))
+                    for mk in range_facts.get(v, []):
+                        post.add_fact(mk(post.vals[v]))
             for (p, ct, what) in mods:
                 self.havoc_fields(post, p, ct, what, 'X%d' % line)
             reach_post = bool(after) or loop['kind'] == 'DoStmt'
@@ -1324,6 +1371,49 @@ class Engine:
             out_norm += exits
         flows['norm'] = self.merge(out_norm)
         return flows
+
+    def range_facts(self, loop, st, assigned, ind, line):
+        """facts that hold for the havocked value x of a variable v at every point of the loop and after it:
+        {v: [callable(x) -> Poly >= 0]}.
+        (a) v only ever assigned the loop's induction variable (argmax / pivot idiom): x <= max(v0, bound-1), so x < bound when v0 < bound;
+        (b) v only decremented (resp. incremented) by constants: x <= v0 (resp. x >= v0)."""
+        from .loopterm import iteration_deltas
+        out = {}
+        init, cond, inc, body = flow.loop_parts(loop)
+        for v in assigned:
+            if ind and v == ind['var']:
+                continue
+            v0 = st.vals.get(v)
+            rhs = []
+            ok = True
+            for x in walk(loop):
+                if is_assign(x) and x.get('opcode') == '=':
+                    t = strip(kids(x)[0])
+                    if t.get('kind') == 'DeclRefExpr' and self.vname(t['referencedDecl']) == v:
+                        rhs.append(strip(kids(x)[1]))
+                elif (is_assign(x) or is_incdec(x)):
+                    t = strip(kids(x)[0])
+                    if t.get('kind') == 'DeclRefExpr' and self.vname(t['referencedDecl']) == v:
+                        ok = False
+            facts = []
+            if ok and rhs and ind and v0 is not None and ind['op'] == '<' and all(
+                    r.get('kind') == 'DeclRefExpr' and self.vname(r['referencedDecl']) == ind['var'] for r in rhs):
+                if prove_nonneg(ind['bound'] - 1 - v0, st.facts + self.pre, equalities=st.eqs):
+                    b = ind['bound']
+                    facts.append(lambda x, b=b: b - 1 - x)
+            if v0 is not None and not rhs:
+                try:
+                    dl = iteration_deltas(loop, self.rawname(v))
+                except Exception:
+                    dl = {None}
+                if dl and None not in dl:
+                    if all(d <= 0 for d in dl):
+                        facts.append(lambda x, v0=v0: v0 - x)
+                    elif all(d >= 0 for d in dl):
+                        facts.append(lambda x, v0=v0: x - v0)
+            if facts:
+                out[v] = facts
+        return out
 
     def delta_poly(self, stmt, v, st, assigned):
         """change of integer variable v caused by executing stmt once, as a loop-invariant Poly; None if unknown"""
